@@ -99,6 +99,9 @@ func c16Package(r *RNG) []c16Decl {
 	}
 	ds = append(ds, c16Decl{text: "func mark(s string, v int) int {\n\tprintln(s, v)\n\treturn v\n}", hoistable: true})
 	// declarations that use imported packages: the import groups of the files depend on the partition
+	// a declaration whose text holds a line that looks like a build constraint (inside a raw string, after the package
+	// clause): it is not one, wherever the declaration lands
+	ds = append(ds, c16Decl{text: "func header() string {\n\treturn `// Code generated. DO NOT EDIT.\n//go:build ignore\n\npackage gen`\n}", hoistable: true})
 	ds = append(ds, c16Decl{text: "func fs1(x int) int {\n\treturn len(fmt.Sprint(x, \"|\"))\n}", hoistable: true, pkgs: []string{"fmt"}})
 	ds = append(ds, c16Decl{text: "func fs2(x int) int {\n\treturn len(strings.Repeat(\"ab\", x%4)) + len(fmt.Sprint(x))\n}", hoistable: true, pkgs: []string{"fmt", "strings"}})
 	ds = append(ds, c16Decl{text: "func fs3(x int) int {\n\treturn len(strings.TrimSpace(\" a \")) + x\n}", hoistable: true, pkgs: []string{"strings"}})
@@ -130,7 +133,7 @@ func c16Package(r *RNG) []c16Decl {
 			main += fmt.Sprintf("\tprintln(\"m\", t%d.M%d(%d))\n", i, m, r.Intn(5))
 		}
 	}
-	main += fmt.Sprintf("\tprintln(\"h\", helper0(3), g%d, lim(3, 4), sb(3, 4), sa(1), sc(1))\n\tprintln(\"imp\", fs1(7), fs2(5), fs3(1), fs4(2.5))\n}", nV-1)
+	main += fmt.Sprintf("\tprintln(\"h\", helper0(3), g%d, lim(3, 4), sb(3, 4), sa(1), sc(1))\n\tprintln(\"imp\", fs1(7), fs2(5), fs3(1), fs4(2.5), len(header()))\n}", nV-1)
 	ds = append(ds, c16Decl{text: main, hoistable: true})
 	return ds
 }
